@@ -8,6 +8,7 @@ import Mimic.Extracted.Protocol
 import MimicProofs.HandlersCode
 import MimicProofs.CommandLoop
 import MimicProofs.Monotone
+import MimicProofs.Frame
 /-!
 # C03 — Every command gets exactly one complete, well-formed response (lockstep)
 
@@ -700,6 +701,21 @@ theorem code_nothing_written_is_retracted (E : Mimic.Py.Env S) (cp : S → Nat) 
 example (c : Connection S) (p : Mimic.Py.Bytes) :
     MimicProofs.Monotone.Ext c (.ok { c with out := c.out ++ [Ev.write p true] }) ∧ MimicProofs.Monotone.Ext c (.error c) :=
   ⟨List.prefix_append _ _, List.prefix_refl _⟩
+
+open MimicProofs.Frame in
+/-- **A whole conversation is answered under the capabilities negotiated in the handshake.**  No command of any conversation
+    changes the connection's `capabilities` or `status_flags` — the two values every response shape depends on — so in particular
+    the terminator convention (EOF packets or OK-as-EOF) is the same for the first and the last response.  The thirteen translated
+    handlers are proved to keep them; the untranslated `handle_change_user` is assumed to (`hother`). -/
+theorem code_capabilities_constant (E : Mimic.Py.Env S) (cp : S → Nat) (pc : Nat → Mimic.Py.Bytes) (coldef : Nat → Nat → Mimic.Py.Bytes)
+    (parse : Connection S → Mimic.Py.Bytes → Option (ComStmtExecute S)) (app : S → Option (ResultSet S))
+    (ur : S → Bool) (fls : Mimic.Extracted.ParsersCode.ComFieldList S → S) (fcd : Nat → S → Mimic.Py.Bytes → Mimic.Py.Bytes)
+    (other : Nat → Connection S → Mimic.Py.Bytes → Except (Connection S) (Connection S)) (err : Connection S → Mimic.Py.Bytes)
+    (hother : ∀ k c d, Keeps c (other k c d)) (c : Connection S) (ps : List Mimic.Py.Bytes) :
+    (command_loop E cp pc coldef parse app ur fls fcd other err c ps).1.capabilities = c.capabilities ∧
+    (command_loop E cp pc coldef parse app ur fls fcd other err c ps).1.status_flags = c.status_flags ∧
+    deprecate_eof (command_loop E cp pc coldef parse app ur fls fcd other err c ps).1 = deprecate_eof c :=
+  ⟨(loop_keeps E cp pc coldef parse app ur fls fcd other err hother c ps).1, (loop_keeps E cp pc coldef parse app ur fls fcd other err hother c ps).2, loop_deprecate_eof E cp pc coldef parse app ur fls fcd other err hother c ps⟩
 
 /-- non-vacuity: a conversation of an empty packet, an unsupported byte and a COM_QUIT followed by a pipelined ping -/
 example : MimicProofs.CommandLoop.served [[], [0x63], [1], [14]] = [[], [0x63], [1]] := by decide
